@@ -37,6 +37,13 @@ def shapes(rnd, n, maxf):
     return out
 
 
+def D_coerce(t, v):
+    """the value as the field type stores it (for value-id lookup)"""
+    from flow.record.base import fieldtype
+
+    return v if v is None else fieldtype(t)(v)
+
+
 class World:
     def __init__(self):
         self.ids = {}
@@ -63,7 +70,9 @@ class World:
         out = []
         for t, n in rec._desc.get_field_tuples():
             v = getattr(rec, n)
-            if n == "ts_description" and isinstance(v, str) and self.key(v) not in self.ids:
+            if v is None:
+                vid = "falsy:datetime" if t == "datetime" and "falsy:datetime" in self.ids.values() and self.key(v) in self.ids else self.ids.get(self.key(v), "?None")
+            elif n == "ts_description" and isinstance(v, str) and self.key(v) not in self.ids:
                 vid = "name:" + str(v)
             else:
                 vid = self.ids.get(self.key(v), "?" + repr(v)[:30])
@@ -92,7 +101,13 @@ def run(tier):
     for i in range(nshape):
         k = ctx.rnd.choice([2, 2, 3])
         shp = shapes(ctx.rnd, k, 3)
-        recs = [W.build(j + 1, s) for j, s in enumerate(shp)]
+        mode = i % 4
+        if mode == 1 and k == 3:
+            shp[2] = shp[0]                              # the SAME descriptor again after a different one
+        if mode == 2:
+            shp = [[(n, ctx.rnd.choice(TYPES)) for n, _ in shp[0]]] + shp[1:]   # same names, other types
+        samename = mode in (1, 2, 3)                      # descriptors sharing one type name
+        recs = [W.build(j + 1, s, name=("t/same" if samename else "t/c%d")) for j, s in enumerate(shp)]
         proj = [W.project(r) for r in recs]
         before = [json.dumps(observe.obs_record(r), sort_keys=True) for r in recs]
         for replace in (False, True):
@@ -146,15 +161,23 @@ def run(tier):
         cases.append(c)
         ctx.case(("ts", json.dumps(shp)))
     # replace-style copies and projection
+    REWRITERS = {}
+    FALSY = {"datetime": None, "string": "", "varint": 0}
     for i in range(nshape // 2):
         shp = shapes(ctx.rnd, 1, 4)[0]
         rec = W.build(1, shp)
         before = json.dumps(observe.obs_record(rec), sort_keys=True)
         donor = W.build(2, shp)
         pick = ctx.rnd.sample([n for n, t in shp], ctx.rnd.randint(1, len(shp)))
-        c = base_case("replace", [W.project(rec)], changes={n: W.ids[W.key(getattr(donor, n))] for n in pick})
+        newvals = {n: getattr(donor, n) for n in pick}
+        if i % 2:
+            tmap = dict(shp)
+            for n in pick[: 1 + i % 2]:
+                newvals[n] = FALSY[tmap[n]]                # boundary: a falsy replacement value (0, "", None)
+                W.ids[W.key(D_coerce(tmap[n], newvals[n]))] = "falsy:" + tmap[n]
+        c = base_case("replace", [W.project(rec)], changes={n: W.ids[W.key(D_coerce(dict(shp)[n], newvals[n]))] for n in pick})
         try:
-            res = rec._replace(**{n: getattr(donor, n) for n in pick})
+            res = rec._replace(**newvals)
             c["res"] = [W.project(res)]
             c["name_ok"] = res._desc == rec._desc and res._source == rec._source
         except Exception as e:
@@ -166,7 +189,8 @@ def run(tier):
         excl = ctx.rnd.choice([[], ctx.rnd.sample(NAMES, ctx.rnd.randint(1, 2))])
         c = base_case("project", [W.project(rec)], fields=fields, excl=excl)
         try:
-            res = RecordFieldRewriter(fields, excl).rewrite(rec)
+            rw = REWRITERS.setdefault((tuple(fields), tuple(excl)), RecordFieldRewriter(fields, excl))   # ONE rewriter sees many descriptors of one name
+            res = rw.rewrite(rec)
             c["res"] = [W.project(res)]
             c["name_ok"] = res._desc.name == rec._desc.name and res._source == rec._source and res._generated == rec._generated
         except Exception as e:
